@@ -276,6 +276,12 @@ void FeatureEvaluator::operator()(Opcode::Opcode op, Clause::Id id,
                     v.row(a).leftCols(count)  = v(a, 0);
                     filled(a) = count;
                 }
+                // Some derivative kernels (sqrt) also read the result row,
+                // which is only valid in slot 0 after the point evaluation
+                if (count > filled(id)) {
+                    v.row(id).leftCols(count) = v(id, 0);
+                    filled(id) = count;
+                }
                 setCount(count);
                 DerivArrayEvaluator::operator()(op, id, a, b);
                 for (unsigned i=0; i < count; ++i) {
@@ -305,6 +311,11 @@ void FeatureEvaluator::operator()(Opcode::Opcode op, Clause::Id id,
                     v.row(b).leftCols(count)  = v(b, 0);
                     filled(b) = count;
                 }
+                if (count > filled(id)) {
+                    v.row(id).leftCols(count) = v(id, 0);
+                    filled(id) = count;
+                }
+                setCount(count);
                 DerivArrayEvaluator::operator()(op, id, a, b);
                 for (unsigned i=0; i < count; ++i) {
                     of.push_back(Feature(d(id).col(i), _ads[i / _bds.size()],
